@@ -456,3 +456,94 @@ def _c10_extra2():
 
 
 EXTRA["C10"] = _c10_extra2
+
+
+# -------------------------------------------------------------------------------------------------
+# PadCoilDimensionModule.forward: the guard chain (early returns / raise) and the number of zero coils, as an integer
+# kernel; the operand order of the final torch.cat as a table
+_PC_SIG = "(num cur : Int) (hasKey : Bool) : Int × Int"
+_PC_CUR = {"data.shape[self.coil_dim]", "shape[self.coil_dim]", "sample[self.key].shape[self.coil_dim]"}
+_PC_BOOL = {"not self.num_coils": "(num == 0)", "self.num_coils is None": "(num == 0)", "self.num_coils == 0": "(num == 0)",
+            "self.key not in sample": "(!hasKey)", "not self.key in sample": "(!hasKey)"}
+
+
+def _pad_coil_defs(tree) -> str:
+    from . import c10_tables as tb
+
+    fn = tb.call_method(tb.class_def(tree, "PadCoilDimensionModule"))
+    binds = {"self.num_coils": "num"}
+    shape_alias = {"data.shape"}
+    out, count, cat, zeros_var = "", None, None, None
+    for st in fn.body:
+        if isinstance(st, ast.Expr) and isinstance(st.value, ast.Constant):
+            continue                                                     # docstring
+        if isinstance(st, ast.If):
+            if st.orelse or len(st.body) != 1:
+                raise Untranslatable(f"`if {ast.unparse(st.test)}` with else / several statements")
+            b = st.body[0]
+            if isinstance(b, ast.Return) and ast.unparse(b.value) == "sample":
+                code = "(0, 0)"
+            elif isinstance(b, ast.Raise):
+                code = "(1, 0)"
+            else:
+                raise Untranslatable(f"body of `if {ast.unparse(st.test)}`: {ast.unparse(b)[:40]}")
+            out += f"  if {ExprTr(binds, _PC_BOOL).bool(st.test)} then {code} else\n"
+            continue
+        if isinstance(st, ast.Assign) and len(st.targets) == 1:
+            tgt, val = ast.unparse(st.targets[0]), ast.unparse(st.value)
+            if tgt == "data" and val == "sample[self.key]":
+                continue
+            if isinstance(st.targets[0], ast.Name) and (val in _PC_CUR or any(val == f"{a}[self.coil_dim]" for a in shape_alias)):
+                binds[tgt] = "cur"
+                continue
+            if isinstance(st.targets[0], ast.Name) and val in shape_alias:
+                shape_alias.add(tgt)
+                continue
+            if tgt == "padding_data_shape" and val in {f"list({a}).copy()" for a in shape_alias} | {f"list({a})" for a in shape_alias}:
+                continue
+            if tgt == "padding_data_shape[self.coil_dim]":
+                count = ExprTr(binds, _PC_BOOL).int(st.value)
+                continue
+            if isinstance(st.targets[0], ast.Name) and isinstance(st.value, ast.Call) and ast.unparse(st.value.func) == "torch.zeros" \
+                    and st.value.args and ast.unparse(st.value.args[0]) == "padding_data_shape":
+                zeros_var = tgt
+                continue
+            if tgt == "sample[self.key]" and isinstance(st.value, ast.Call) and ast.unparse(st.value.func) in ("torch.cat", "torch.concat") \
+                    and st.value.args and isinstance(st.value.args[0], (ast.List, ast.Tuple)):
+                kws = {k.arg: ast.unparse(k.value) for k in st.value.keywords}
+                dim = kws.get("dim") or (ast.unparse(st.value.args[1]) if len(st.value.args) > 1 else None)
+                if dim != "self.coil_dim":
+                    raise Untranslatable(f"torch.cat along `{dim}`")
+                cat = ["zeros" if ast.unparse(e) == zeros_var else ast.unparse(e) for e in st.value.args[0].elts]
+                continue
+        if isinstance(st, ast.Return) and ast.unparse(st.value) == "sample":
+            continue
+        raise Untranslatable(f"statement `{ast.unparse(st)[:60]}` in PadCoilDimensionModule.forward")
+    if count is None or cat is None:
+        raise Untranslatable("no `padding_data_shape[self.coil_dim] = …` / `sample[self.key] = torch.cat([...])`")
+    return (f"def pad_coil_forward {_PC_SIG} :=\n{out}  (2, {count})\n"
+            f"/-- operands of the final `torch.cat([...], dim=self.coil_dim)`, in source order -/\n"
+            f"def padCoilCat : List String := [{', '.join(_lean_str(c) for c in cat)}]\n")
+
+
+_prev_extra2 = EXTRA["C10"]
+
+
+def _c10_extra3():
+    from ..gen import REPO as _R, parse_file as _pf
+
+    text, status = _prev_extra2()
+    marker = "\nend DirectVerif.Gen.C10"
+    try:
+        body = _pad_coil_defs(_pf(_R / MT))
+        add = (f"\n/-- translated from `{MT}`:`PadCoilDimensionModule.forward`: (branch, zero coils) — 0 = sample returned unchanged,\n"
+               f"1 = raises, 2 = zeros concatenated -/\n" + body)
+        status["pad_coil_forward"] = "translated"
+    except (Untranslatable, SyntaxError, OSError) as e:
+        add = (f"\n/-- SKIPPED ({e}) -/\ndef pad_coil_forward {_PC_SIG} :=\n  Crop.padCoilDecision num cur hasKey\n"
+               f"def padCoilCat : List String := Crop.padCoilCatModel\n")
+        status["pad_coil_forward"] = f"skipped: {e}"
+    return text + add, status
+
+
+EXTRA["C10"] = _c10_extra3
